@@ -18,6 +18,8 @@ def check(I, fr, lname, names, entry, fresh, head, outs):
         kahn_step(I, fr, lname, names, entry, fresh, head, outs)
     if fn.endswith("::is_convex_subgraph"):
         convex_step(I, fr, lname, names, entry, fresh, head, outs)
+    if fn.endswith("::map_operations") and "lax::functor" in fn:
+        image_accumulation_step(I, fr, lname, names, entry, fresh, head, outs)
     if fn.endswith("::is_convex_subgraph") and DEBUG:
         for r, (place, v) in entry.items():
             print("CONVEX entry", names.get(r, r), repr(v)[:200])
@@ -38,6 +40,7 @@ def kahn_step(I, fr, lname, names, entry, fresh, head, outs):
     from lax_model import deref
     # roles from the values at loop entry (robust to renaming of locals)
     roles = {}
+    mark_next = set()
     for r, (place, v) in entry.items():
         if isinstance(v, VNat) and v.p.is_const() and v.p.const_value() == 0:
             roles.setdefault("depth", r)
@@ -45,6 +48,11 @@ def kahn_step(I, fr, lname, names, entry, fresh, head, outs):
             roles.setdefault("order", r)
         elif isinstance(v, VSeq) and v.t[0] == "fill" and as_poly(v.t[1]) == Poly.const(1):
             roles.setdefault("unvisited", r)
+        elif isinstance(v, VSeq) and v.t[0] == "sac" and v.t[1][0] == "fill" and as_poly(v.t[1][1]) == Poly.const(1) \
+                and as_poly(v.t[3]) == Poly.const(0):
+            # marking discipline B: a node is marked when it enters the frontier (the initial frontier before the loop)
+            roles.setdefault("unvisited", r)
+            mark_next.add("unvisited")
         elif isinstance(v, VRec) and v.ty == inv.FF:
             roles.setdefault("indegree", r)
         elif isinstance(v, VSeq) and v.t[0] == "zero":
@@ -62,9 +70,14 @@ def kahn_step(I, fr, lname, names, entry, fresh, head, outs):
     for (s, v, ctl) in back:
         post = {k: I.read_place(s, entry[r][0]) for k, r in roles.items()}
         _ob(I, fr, what0 + ": depth advances by one", f"depth' == depth + 1", s.eq(post["depth"].p, d + 1), s)
-        U1 = ("sac", U, F, Poly.const(0))
-        _ob(I, fr, what0 + ": exactly the frontier is marked visited", "unvisited' ≡ unvisited[frontier := 0]",
-            terms_equal(s, post["unvisited"].t, U1), s)
+        if "unvisited" in mark_next:
+            U1 = ("sac", U, post["frontier"].t, Poly.const(0))
+            _ob(I, fr, what0 + ": exactly the nodes entering the next frontier are marked visited",
+                "unvisited' ≡ unvisited[frontier' := 0]", terms_equal(s, post["unvisited"].t, U1), s)
+        else:
+            U1 = ("sac", U, F, Poly.const(0))
+            _ob(I, fr, what0 + ": exactly the frontier is marked visited", "unvisited' ≡ unvisited[frontier := 0]",
+                terms_equal(s, post["unvisited"].t, U1), s)
         _ob(I, fr, what0 + ": the frontier receives the current depth", "order' ≡ order[frontier := depth]",
             terms_equal(s, post["order"].t, ("sac", O, F, d)), s)
         D1 = normalise(s, post["indegree"].f["table"].t)
@@ -79,7 +92,10 @@ def kahn_step(I, fr, lname, names, entry, fresh, head, outs):
         _ob(I, fr, what0 + ": the counted nodes are the successors of the frontier (block-wise re-indexing along it)",
             "X mentions the frontier through inj(sizes, frontier): " + show_term(X)[:200], _mentions_inj_of(X, F), s)
         cand = mk_gather(s, K, ("zero", mk_gather(s, D1, K)))
-        F1 = ("repeat", mk_gather(s, post["unvisited"].t, cand), cand)
+        # the flags consulted are those after this round's marking (discipline A: the frontier itself was marked at
+        # the top of the round) or, in discipline B, those before the next frontier is marked
+        flags_t = U if "unvisited" in mark_next else post["unvisited"].t
+        F1 = ("repeat", mk_gather(s, flags_t, cand), cand)
         _ob(I, fr, what0 + ": next frontier = reached nodes whose remaining in-degree is zero and which are unvisited",
             "frontier' ≡ filter(keys[indegree'[keys] == 0], unvisited'): got " + show_term(normalise(s, post["frontier"].t))[:200],
             terms_equal(s, post["frontier"].t, F1), s)
@@ -133,3 +149,48 @@ def convex_step(I, fr, lname, names, entry, fresh, head, outs):
             ok = bool(atoms) and all(s.eq(Poly.atom(a_), 0) for a_ in atoms)
         _ob(I, fr, "convexity search: the frontier of paths that left the image is emptied only when it has no successors",
             "frontier1' = [] ⇒ frontier1 = [] or successors(frontier1) = []", ok, s)
+
+
+def image_accumulation_step(I, fr, lname, names, entry, fresh, head, outs):
+    """The loops that tensor the images of all operations (lax functor application): an iteration that leaves the
+    accumulated diagram's hyperedges unchanged is allowed only when the image of this operation has no hyperedges —
+    'every hyperedge is replaced by the image of its operation'."""
+    import inv
+    acc = None
+    for r, (place, v) in entry.items():
+        if isinstance(v, VRec) and v.ty in (inv.LOH, inv.LH):
+            acc = r
+    if acc is None:
+        return
+    place = entry[acc][0]
+    pre = fresh[acc]
+    pre_h = pre.f["hypergraph"] if pre.ty == inv.LOH else pre
+    for (s, v, ctl) in outs:
+        if ctl not in (None, "continue"):
+            continue
+        post = I.read_place(s, place)
+        if not isinstance(post, VRec):
+            continue
+        post_h = post.f["hypergraph"] if post.ty == inv.LOH else post
+        unchanged = post_h.f["edges"].t == pre_h.f["edges"].t
+        if not unchanged:
+            continue
+        imgs = set()
+
+        def visit(t):
+            if isinstance(t, tuple):
+                if len(t) == 2 and t[0] == "v" and isinstance(t[1], tuple) and len(t[1]) == 2 and t[1][1] == "edges" \
+                        and isinstance(t[1][0], tuple) and t[1][0][:2] == ("user", "lax_map_operation"):
+                    imgs.add(t)
+                for y in t:
+                    visit(y)
+            elif isinstance(t, Poly):
+                for a_ in t.atoms():
+                    visit(a_)
+        for k_, p_ in s.lin.facts:
+            visit(p_)
+        for t_ in list(s.bnd):
+            visit(t_)
+        ok = all(s.eq(t_len(L), 0) for L in imgs)
+        _ob(I, fr, "functor application: an operation's image is left out only if it has no hyperedges",
+            "accumulated hyperedges unchanged ⇒ the image of this operation has none", ok, s)
